@@ -93,12 +93,24 @@ def perturbation(seed, index):
         # the other scope first; both into another output directory (detcompile/inproc.py). Drawn last, so that every
         # other dimension of a given (seed, index) is what it was before this one existed.
         'inproc_prior': 0 if index == 0 else (rng.choice([1, 2]) if rng.random() < 0.3 else 0),
+        # the user's home directory is a prefix of a path on the command line (the compiler is always started as
+        # <root>/u/tools/tzcompiler.py, a symbolic link to the tree's tools directory; in these runs HOME is <root>/u):
+        # whoever abbreviates, expands or relativises paths against the home directory shows it
+        'home_prefix': index != 0 and rng.random() < 0.25,
     }
 
 
 def compile_once(repo, src, workdir, cfg, pert, _prior=False):
     scope, language, actions, start, until = CONFIGS[cfg][:5]
     extra = list(CONFIGS[cfg][5]) if len(CONFIGS[cfg]) > 5 else []
+    # the same script path in every run of a check (it is part of the recorded invocation), reached through a
+    # directory that some runs have as their home directory
+    udir = os.path.join(os.path.dirname(src), 'u')
+    os.makedirs(udir, exist_ok=True)
+    try:
+        os.symlink(os.path.join(repo, 'tools'), os.path.join(udir, 'tools'))
+    except FileExistsError:
+        pass
     cwd = workdir
     for d in range(pert['cwd_depth']):
         cwd = os.path.join(cwd, 'd%d' % d)
@@ -159,6 +171,8 @@ def compile_once(repo, src, workdir, cfg, pert, _prior=False):
         env.pop(k, None)
     os.makedirs(env['HOME'], exist_ok=True)
     os.makedirs(env['TMPDIR'], exist_ok=True)
+    if pert.get('home_prefix'):
+        env['HOME'] = udir
     if hu:
         env.update({'USER': 'builder%d' % hu, 'LOGNAME': 'builder%d' % hu, 'HOSTNAME': 'buildhost%d' % hu})
         if hu == 3:
@@ -174,7 +188,7 @@ def compile_once(repo, src, workdir, cfg, pert, _prior=False):
     if pert['shim']:
         env['PYTHONPATH'] = HERE
         env['DETCOMPILE_SEED'] = str(pert['shim_seed'])
-    script = os.path.join(repo, 'tools', 'tzcompiler.py')
+    script = os.path.join(udir, 'tools', 'tzcompiler.py')
     args = ['--input_dir', 'in', '--output_dir', 'out',
             '--tz_version', '2020d', '--action', actions, '--language', language, '--scope', scope,
             '--start_year', str(start), '--until_year', str(until)] + extra
@@ -370,7 +384,7 @@ def run(prop, tier, verif_seed):
     exit_code = 0
     stats = {'compilations': 0, 'files_compared': 0, 'bytes_compared': 0, 'reason_lines_canonicalised': 0,
              'raw_byte_differences_excused': 0}
-    fault_counts = {'second_compilation_of_its_interpreter': 0, 'input_mtimes_changed': 0, 'output_dir_is_symlink': 0, 'env_extra_variables': 0, 'stdio_not_a_pipe': 0, 'input_dir_not_a_symlink': 0, 'prior_compile_of_other_source': 0, 'home_user_host_changed': 0, 'stale_outputs_present': 0, 'hashseed_changed': 0, 'clock_jumping': 0, 'listing_shuffled': 0, 'tz_changed': 0,
+    fault_counts = {'second_compilation_of_its_interpreter': 0, 'home_is_prefix_of_a_command_line_path': 0, 'input_mtimes_changed': 0, 'output_dir_is_symlink': 0, 'env_extra_variables': 0, 'stdio_not_a_pipe': 0, 'input_dir_not_a_symlink': 0, 'prior_compile_of_other_source': 0, 'home_user_host_changed': 0, 'stale_outputs_present': 0, 'hashseed_changed': 0, 'clock_jumping': 0, 'listing_shuffled': 0, 'tz_changed': 0,
                     'locale_changed': 0, 'cwd_depth_changed': 0, 'umask_changed': 0}
     samples = []
     distinct = set()
@@ -406,6 +420,8 @@ def run(prop, tier, verif_seed):
                 fault_counts['prior_compile_of_other_source'] += 1
             if p.get('inproc_prior'):
                 fault_counts['second_compilation_of_its_interpreter'] += 1
+            if p.get('home_prefix'):
+                fault_counts['home_is_prefix_of_a_command_line_path'] += 1
             if p.get('env_extra'):
                 fault_counts['env_extra_variables'] += 1
             if p.get('stdio', 'pipe') != 'pipe':
@@ -508,7 +524,7 @@ def minimise_perturbation(repo, src, root, cfg, ref, pert, base):
     outputs still differ."""
     cur = dict(pert)
     n = [0]
-    for dim in ('shim', 'stale_outputs', 'prior_other', 'inproc_prior', 'env_extra', 'stdio', 'input_link', 'input_mtimes', 'out_link', 'home_user', 'tz', 'lang', 'umask', 'cwd_depth', 'hashseed'):
+    for dim in ('shim', 'stale_outputs', 'prior_other', 'inproc_prior', 'home_prefix', 'env_extra', 'stdio', 'input_link', 'input_mtimes', 'out_link', 'home_user', 'tz', 'lang', 'umask', 'cwd_depth', 'hashseed'):
         trial = dict(cur)
         trial[dim] = base[dim]
         if trial == cur:
